@@ -112,6 +112,8 @@ def run(chk):
     from lib import evexfeatures
     evexfeatures.run(chk)
     evexfeatures.run_avx2(chk)
+    from lib import avx512last
+    avx512last.run(chk)
     return chk.finish(
         level="other",
         explanation=("Table/database agreement clauses: the RW, flag, feature and rm tables regenerate byte-identically from db/ with the "
